@@ -90,6 +90,16 @@ impl<'w> Ctx<'w> {
         Some((x, place, format!("decide (0 < {}.length)", cur), format!("{}.length - 1", cur)))
     }
 
+    fn opt_insert_let(&self, l: &syn::Local) -> Option<(String, Place, Expr)> {
+        let name = match &l.pat { Pat::Ident(i) if i.mutability.is_none() && i.subpat.is_none() => i.ident.to_string(), _ => return None };
+        let init = l.init.as_ref()?;
+        if init.diverge.is_some() { return None; }
+        let mc = match &*init.expr { Expr::MethodCall(mc) if mc.method == "insert" && mc.args.len() == 1 => mc, _ => return None };
+        let place = self.place_of(&mc.receiver)?;
+        if place.opt || place.index.is_some() || place.proj.is_some() || place.range.is_some() { return None; }
+        match self.resolve(&place.ty) { Ty::Opt(_) => Some((name, place, mc.args[0].clone())), _ => None }
+    }
+
     /// `for (a, b) in LIST` over a name standing for a place that holds a list of pairs
     fn for_pairs(&self, f: &syn::ExprForLoop) -> Option<(Place, String, String, Vec<Ty>)> {
         let name = match &*f.expr { Expr::Path(p) if p.path.segments.len() == 1 => p.path.segments[0].ident.to_string(), _ => return None };
@@ -211,6 +221,20 @@ impl<'w> Ctx<'w> {
                     let ln = self.bind(nm, ty.clone());
                     out.push(format!("{}let {} : {} := {}", ind(n), ln, lt, proj));
                 }
+                Ok(())
+            }
+            Stmt::Local(l) if self.opt_insert_let(l).is_some() => {
+                // `let x = PLACE.insert(v);` on an `Option`: the place becomes `Some(v)` and `x` stands for its content
+                let (name, place, arg) = self.opt_insert_let(l).unwrap();
+                let inner_ty = match self.resolve(&place.ty) { Ty::Opt(t) => *t, o => return Err(format!("insert on {:?}", o)) };
+                let v = self.expr(&arg)?;
+                if self.resolve(&v.ty) != inner_ty { return Err(format!("Option::insert of {:?} into {:?}", v.ty, place.ty)); }
+                self.flush_pre(n, out);
+                out.push(format!("{}{}", ind(n), self.place_write(&place, &format!("(Option.some {})", v.s))));
+                let mut lp = place.clone();
+                lp.opt = true;
+                lp.ty = inner_ty;
+                self.elems.insert(name, lp);
                 Ok(())
             }
             Stmt::Local(l) if self.view_let(l).is_some() => {
